@@ -334,3 +334,58 @@ Theorem io_parsers_are_complete :
   (gen_io_parse_uses_streaming = false /\ gen_io_parse_foreign_nom_paths = 0) \/
   gen_io_error_incomplete_is_panic = false.
 Proof. first [left; split; reflexivity | right; reflexivity]. Qed.
+
+(* The capacity oracle is irrelevant for the polling consumer as well: Vec::capacity() only decides WHEN the
+   buffer is compacted, and what a next() returns and leaves pending depends on the pending bytes only.  (The
+   driver runs the model with an arbitrary oracle; C14io.compaction_transparent covers the stop-consumer only.) *)
+From LMIo Require Import IoPollCaps.
+
+Theorem reader_polls_capacity_independent_jaspar : forall n caps1 caps2 es,
+  jaspar_polls_e n caps1 es = jaspar_polls_e n caps2 es.
+Proof.
+  intros n caps1 caps2 es. apply (j_polls_capacity_independent gen_jaspar_slice_guard (j_record false)).
+  apply Nat.leb_le. reflexivity.
+Qed.
+
+Theorem reader_polls_capacity_independent_jaspar16 : forall A n caps1 caps2 es,
+  jaspar16_polls_e A n caps1 es = jaspar16_polls_e A n caps2 es.
+Proof.
+  intros A n caps1 caps2 es. apply (j_polls_capacity_independent gen_jaspar_slice_guard (j16_record A)).
+  apply Nat.leb_le. reflexivity.
+Qed.
+
+(* `map_res(matrix, CountMatrix::new)` of the JASPAR record parsers: the model takes CountMatrix::new as never
+   failing (its row-sum test is commented out in lightmotif/src/pwm/mod.rs); re-read on every run *)
+Theorem count_matrix_new_is_total : gen_count_matrix_new_can_fail = false.
+Proof. reflexivity. Qed.
+
+(* history theorem behind it: two reader objects with the same pending bytes (buffer after `start`) and the same
+   stream -- whatever their buffers, offsets and capacities are after their different pasts -- answer the next
+   request alike and stay related *)
+Theorem reader_next_depends_on_pending_only : forall precord cap1 cap2 a b, same_pending a b ->
+  snd (j_next_e precord cap1 a) = snd (j_next_e precord cap2 b) /\
+  same_pending (fst (j_next_e precord cap1 a)) (fst (j_next_e precord cap2 b)).
+Proof. intros precord. exact (j_next_e_g_pending gen_jaspar_slice_guard precord). Qed.
+
+(* ErrorKind::Interrupted is invisible (std's read_until / read_line retry it; the readers have no arm for it):
+   deleting every Interrupted event from a fault script changes no outcome of any sequence of requests.  A reader
+   that handled Interrupted itself (returning it as an error, or dropping the bytes read so far) would not satisfy this. *)
+From LMIo Require Import IoPollIntr.
+
+Theorem reader_interrupted_invisible_jaspar : forall n caps es, wf_estream es ->
+  jaspar_polls_e n caps (strip_intr es) = jaspar_polls_e n caps es.
+Proof. intros n caps es. exact (j_polls_interrupted_invisible gen_jaspar_slice_guard (j_record false) _ _ n caps es). Qed.
+
+Theorem reader_interrupted_invisible_jaspar16 : forall A n caps es, wf_estream es ->
+  jaspar16_polls_e A n caps (strip_intr es) = jaspar16_polls_e A n caps es.
+Proof. intros A n caps es. exact (j_polls_interrupted_invisible gen_jaspar_slice_guard (j16_record A) _ _ n caps es). Qed.
+
+Theorem reader_interrupted_invisible_uniprobe : forall A parse_f32 n es,
+  uniprobe_polls_e A parse_f32 n (strip_intr es) = uniprobe_polls_e A parse_f32 n es.
+Proof. exact uniprobe_polls_interrupted_invisible. Qed.
+
+Example interrupted_storm :
+  jaspar_polls_e 3 (fun _ => 0)
+    [EvErr true; EvData [62;120;10; 49;32]%N; EvErr true; EvErr true; EvData [50;10; 51;32;52;10; 53;32;54;10; 55;32;56;10]%N; EvErr true]
+  = [Ok (Some {| rid := [120%N]; rdesc := None; rmatrix := [[1;3;7;5;0]; [2;4;8;6;0]]%N |}); Ok None; Ok None].
+Proof. vm_compute. reflexivity. Qed.
